@@ -56,6 +56,8 @@ def cases(tier, seed):
                        "draws": DRAWS if tier == "quick" else 12}
     for code in (0x1301, 0x1302, 0x1303, 0x1304, 0x1305):
         yield {"kind": "tls13_pair", "suite": code, "seed": seed}
+        # ... and every ordered pair of DIFFERENT TLS 1.3 suites in one run (key lengths 16/32, hashes SHA-256/384 side by side)
+        yield {"kind": "tls13_pair", "suite": code, "second": [c for c in (0x1301, 0x1302, 0x1303, 0x1304, 0x1305) if c != code], "seed": seed}
     for proto, codes in (("tls13", (0x1301, 0x1302, 0x1303)), ("quic", (0x1301, 0x1302, 0x1303))):
         for code in codes:
             for part in range(3):
@@ -196,15 +198,18 @@ def run_case(case):
         # several TLS 1.3 connections in ONE run, with complete and with traffic-only key-log entries, in every order
         code = case["suite"]
         import itertools
-        for pattern in itertools.product((True, False), repeat=3):
-            flows = [scen.tls_flow({"version": tls.TLS13, "suite": code, "hs_secrets": hs, "history": [("c", 3), ("s", 3)]}, seed, i,
+        patterns = [(p, [code] * 3) for p in itertools.product((True, False), repeat=3)]
+        if case.get("second"):
+            patterns = [((True, True, True), [code, c2, code]) for c2 in case["second"]] + [((True, False, True), [c2, code, c2]) for c2 in case["second"]]
+        for pattern, codes in patterns:
+            flows = [scen.tls_flow({"version": tls.TLS13, "suite": codes[i], "hs_secrets": hs, "history": [("c", 3), ("s", 3)]}, seed, i,
                                    key=("pair", str(pattern))) for i, hs in enumerate(pattern)]
             ends = {f.id: f.ends for f in flows}
             pk = cap.stamp([p for f in flows for p in f.pkts], ends)
             kl = [l for f in flows for l in f.keylog()]
             res, (sessions, _q) = scen.run(pk, kl, want_objects=True)
             n += 1
-            sig = {"kind": "tls13_pair", "suite": f"{code:#06x}", "hs_secrets_pattern": str(pattern)}
+            sig = {"kind": "tls13_pair", "suites": [f"{c:#06x}" for c in codes], "hs_secrets_pattern": str(pattern)}
             if not res.ok or len(sessions) != 3:
                 fails.append({"kind": "no_keys_installed", "sig": sig, "detail": res.status + res.detail[-300:]})
                 continue
